@@ -72,16 +72,17 @@ inline int level_of(const Item& it) { return G->order == ORD_BSP ? it.depth : it
 inline bool order_desc() { return G->order == ORD_PRIO_DESC; }
 
 // ---- generator -------------------------------------------------------------
-inline void generate(Workload& w, bool cd, int order, int nthreads, int focus) {
+inline void generate(Workload& w, bool cd, int order, int nthreads, int focus, int force_items = 0) {
   w.cd = cd; w.order = order; w.nthreads = nthreads;
   w.exercise_known = vsim_param_fixed("exercise_known", 0) != 0;
   int big = tier() ? 3000 : 200;
   int n = (int)wl_range(1, wl_chance(15) ? big : 60);
+  if (force_items) n = force_items;
   int nroots = (int)wl_range(1, std::max(1, std::min(n, wl_chance(50) ? 8 : n)));
   w.nobj = (int)wl_range(focus == 2 ? 2 : 1, focus == 2 ? 6 : 12);
   int maxfan = (int)wl_range(0, 4);
   int maxdepth = (int)wl_range(1, 6);
-  bool vol = cd && wl_chance(40);
+  bool vol = cd && focus != 7 && wl_chance(40);
   int conflict_pct = (int)wl_range(0, 100);   // how much neighbourhoods overlap
   w.items.resize(n);
   w.objs.resize(w.nobj);
@@ -136,7 +137,7 @@ inline void generate(Workload& w, bool cd, int order, int nthreads, int focus) {
       if (a > 0 && wl_chance(15)) o = it.prog.empty() ? o : (it.prog[0].kind == 0 ? (it.prog[0].arg & 15) : o);  // re-acquire
       int flag = (int)wl_range(0, 9); flag = flag < 6 ? 0 /*WRITE*/ : flag < 9 ? 1 /*READ*/ : 2 /*UNPROTECTED*/;
       if (wl_chance(30)) it.prog.push_back(Step{2, (unsigned char)wl_range(1, 3)});
-      if (nextchild < it.children.size() && wl_chance(30)) it.prog.push_back(Step{1, (unsigned char)nextchild++});
+      if (focus != 7 && nextchild < it.children.size() && wl_chance(30)) it.prog.push_back(Step{1, (unsigned char)nextchild++});
       it.prog.push_back(Step{0, (unsigned char)(o | (flag << 4))});
     }
     while (nextchild < it.children.size()) {
